@@ -1518,6 +1518,230 @@ def _suffix_classes(test, truth: bool, suffix: str) -> FrozenSet[str]:
     return frozenset(out)
 
 
+class _Unreadable(Exception):
+    pass
+
+
+# Finite domain the sink-kwargs expression is evaluated on: what re.Match.groupdict()
+# can return (name -> matched text, or None for a group that did not participate).
+_GD_SAMPLES = (
+    {'version': None, 'id': '12'},      # an optional group that did not take part in the match
+    {'a': '', 'b': '0', 'c': None},     # a group that matched the empty string / a falsy-looking text
+    {'id': '7'},
+    {},
+)
+_GD_DICT_METHODS = {'items', 'keys', 'values', 'copy', 'get'}
+_GD_BUILTINS = {'dict': dict, 'list': list, 'tuple': tuple, 'len': len, 'bool': bool, 'iter': iter, 'sorted': sorted, 'reversed': reversed}
+
+
+class _GroupdictEval:
+    """Concrete evaluation of the (small, closed) expression language in which
+    a copy / filter / re-keying of `<match>.groupdict()` can be written, on the
+    samples above.  Nothing of the analysed code is executed: the interpreter
+    below reads dict displays, comprehensions, dict()/list()/tuple(), the dict
+    views, comparisons, boolean operators and conditional expressions; every
+    other construct is _Unreadable (-> UnknownIdiom)."""
+
+    def __init__(self, resolve_name: Callable[[str], Optional[ast.AST]]):
+        self.resolve_name = resolve_name
+        self.sample: Dict[str, Optional[str]] = {}
+        self.src: List[ast.AST] = []        # receivers of .groupdict() met
+        self._active: Set[str] = set()
+
+    def run(self, e, sample):
+        self.sample = sample
+        return self.ev(e, {})
+
+    def ev(self, e, env):
+        if isinstance(e, ast.Constant):
+            return e.value
+        if isinstance(e, ast.Name):
+            if e.id in env:
+                return env[e.id]
+            if e.id in _GD_BUILTINS or e.id in self._active:
+                raise _Unreadable(short(e))
+            d = self.resolve_name(e.id)
+            if d is None:
+                raise _Unreadable('%s (not a local with one definition in the scan)' % e.id)
+            self._active.add(e.id)
+            try:
+                return self.ev(d, {})
+            finally:
+                self._active.discard(e.id)
+        if isinstance(e, ast.Tuple):
+            return tuple(self.ev(x, env) for x in e.elts)
+        if isinstance(e, ast.List):
+            return [self.ev(x, env) for x in e.elts]
+        if isinstance(e, ast.Dict):
+            out = {}
+            for k, v in zip(e.keys, e.values):
+                if k is None:
+                    m = self.ev(v, env)
+                    if not isinstance(m, dict):
+                        raise _Unreadable(short(e))
+                    out.update(m)
+                else:
+                    out[self._hashable(self.ev(k, env), e)] = self.ev(v, env)
+            return out
+        if isinstance(e, (ast.DictComp, ast.ListComp, ast.GeneratorExp, ast.SetComp)):
+            acc = []
+            self._comp(e, 0, env, acc)
+            if isinstance(e, ast.DictComp):
+                return {self._hashable(k, e): v for k, v in acc}
+            if isinstance(e, ast.SetComp):
+                return {self._hashable(x, e) for x in acc}
+            return list(acc)
+        if isinstance(e, ast.BoolOp):
+            val = None
+            for x in e.values:
+                val = self.ev(x, env)
+                if isinstance(e.op, ast.And) and not val:
+                    return val
+                if isinstance(e.op, ast.Or) and val:
+                    return val
+            return val
+        if isinstance(e, ast.UnaryOp) and isinstance(e.op, ast.Not):
+            return not self.ev(e.operand, env)
+        if isinstance(e, ast.IfExp):
+            return self.ev(e.body, env) if self.ev(e.test, env) else self.ev(e.orelse, env)
+        if isinstance(e, ast.Compare):
+            left = self.ev(e.left, env)
+            for op, c in zip(e.ops, e.comparators):
+                right = self.ev(c, env)
+                if isinstance(op, ast.Is):
+                    r = left is right
+                elif isinstance(op, ast.IsNot):
+                    r = left is not right
+                elif isinstance(op, ast.Eq):
+                    r = left == right
+                elif isinstance(op, ast.NotEq):
+                    r = left != right
+                elif isinstance(op, (ast.In, ast.NotIn)):
+                    if not isinstance(right, (dict, list, tuple, set, frozenset, str)) or (isinstance(right, str) and not isinstance(left, str)):
+                        raise _Unreadable(short(e))
+                    r = (left in right) if isinstance(op, ast.In) else (left not in right)
+                else:
+                    raise _Unreadable(short(e))
+                if not r:
+                    return False
+                left = right
+            return True
+        if isinstance(e, ast.Subscript):
+            base, k = self.ev(e.value, env), self.ev(e.slice, env) if not isinstance(e.slice, ast.Slice) else None
+            if isinstance(e.slice, ast.Slice) or not isinstance(base, (dict, tuple, list)):
+                raise _Unreadable(short(e))
+            try:
+                return base[k]
+            except (KeyError, IndexError, TypeError):
+                raise _Unreadable('%s raises on a sample' % short(e))
+        if isinstance(e, ast.BinOp) and isinstance(e.op, ast.BitOr):
+            a, b = self.ev(e.left, env), self.ev(e.right, env)
+            if isinstance(a, dict) and isinstance(b, dict):
+                return {**a, **b}
+            raise _Unreadable(short(e))
+        if isinstance(e, ast.Call):
+            if any(isinstance(a, ast.Starred) for a in e.args):
+                raise _Unreadable(short(e))
+            fn = e.func
+            if isinstance(fn, ast.Attribute) and fn.attr == 'groupdict':
+                self.src.append(fn.value)
+                if e.keywords and [k.arg for k in e.keywords] != ['default'] or len(e.args) + len(e.keywords) > 1:
+                    raise _Unreadable(short(e))
+                extra = list(e.args) + [k.value for k in e.keywords]
+                default = self.ev(extra[0], env) if extra else None
+                return {k: (default if v is None else v) for k, v in self.sample.items()}
+            if isinstance(fn, ast.Name) and fn.id in _GD_BUILTINS and fn.id not in env:
+                args = [self.ev(a, env) for a in e.args]
+                if fn.id == 'dict':
+                    kw = {}
+                    for k in e.keywords:
+                        if k.arg is None:
+                            m = self.ev(k.value, env)
+                            if not isinstance(m, dict):
+                                raise _Unreadable(short(e))
+                            kw.update(m)
+                        else:
+                            kw[k.arg] = self.ev(k.value, env)
+                    try:
+                        return dict(*args, **kw)
+                    except (TypeError, ValueError):
+                        raise _Unreadable('%s raises on a sample' % short(e))
+                if e.keywords or len(args) != 1 or not isinstance(args[0], (dict, list, tuple, set, str)) and not hasattr(args[0], '__iter__'):
+                    raise _Unreadable(short(e))
+                try:
+                    r = _GD_BUILTINS[fn.id](args[0])
+                except TypeError:
+                    raise _Unreadable('%s raises on a sample' % short(e))
+                return list(r) if fn.id in ('iter', 'reversed') else r
+            if isinstance(fn, ast.Attribute) and fn.attr in _GD_DICT_METHODS and not e.keywords:
+                base = self.ev(fn.value, env)
+                if not isinstance(base, dict):
+                    raise _Unreadable(short(e))
+                args = [self.ev(a, env) for a in e.args]
+                if fn.attr == 'get':
+                    if not 1 <= len(args) <= 2:
+                        raise _Unreadable(short(e))
+                    return base.get(self._hashable(args[0], e), *args[1:])
+                if args:
+                    raise _Unreadable(short(e))
+                return dict(base) if fn.attr == 'copy' else list(getattr(base, fn.attr)())
+            raise _Unreadable(short(e))
+        raise _Unreadable(short(e))
+
+    @staticmethod
+    def _hashable(k, e):
+        try:
+            hash(k)
+        except TypeError:
+            raise _Unreadable('%s builds an unhashable key' % short(e))
+        return k
+
+    def _bind(self, target, value, env, e):
+        if isinstance(target, ast.Name):
+            env[target.id] = value
+        elif isinstance(target, (ast.Tuple, ast.List)) and not any(isinstance(x, ast.Starred) for x in target.elts):
+            if not isinstance(value, (tuple, list)) or len(value) != len(target.elts):
+                raise _Unreadable('%s: unpacking %s' % (short(e), short(target)))
+            for t, v in zip(target.elts, value):
+                self._bind(t, v, env, e)
+        else:
+            raise _Unreadable('%s: target %s' % (short(e), short(target)))
+
+    def _comp(self, e, i, env, acc):
+        if i == len(e.generators):
+            if isinstance(e, ast.DictComp):
+                acc.append((self.ev(e.key, env), self.ev(e.value, env)))
+            else:
+                acc.append(self.ev(e.elt, env))
+            return
+        g = e.generators[i]
+        if g.is_async:
+            raise _Unreadable(short(e))
+        it = self.ev(g.iter, env)
+        if isinstance(it, dict):
+            it = list(it)
+        if not isinstance(it, (list, tuple)):
+            raise _Unreadable('%s iterates %s' % (short(e), short(g.iter)))
+        for item in it:
+            env2 = dict(env)
+            self._bind(g.target, item, env2, e)
+            if all(self.ev(c, env2) for c in g.ifs):
+                self._comp(e, i + 1, env2, acc)
+
+
+def _mentions_groupdict(v, resolve_name, _seen=None) -> bool:
+    seen = set() if _seen is None else _seen
+    for x in ast.walk(v):
+        if isinstance(x, ast.Call) and isinstance(x.func, ast.Attribute) and x.func.attr == 'groupdict':
+            return True
+        if isinstance(x, ast.Name) and isinstance(x.ctx, ast.Load) and x.id not in seen:
+            seen.add(x.id)
+            d = resolve_name(x.id)
+            if d is not None and _mentions_groupdict(d, resolve_name, seen):
+                return True
+    return False
+
+
 def r5_suffix_kwargs(run):
     p = run.project
     f = p.func(UTIL + '.map_http_methods')
@@ -1601,6 +1825,22 @@ def r5_suffix_kwargs(run):
         raise AnchorError('%s never assigns its params' % GETR)
     sink_edges = _truth_edges(gcfg, lambda e: isinstance(e, ast.Name) and e.id == d.v_is_sink, True)
     n_gd = 0
+    gd_nodes = []
+
+    def resolver(cur):
+        def resolve(name):
+            if name in (d.v_matcher, d.v_obj, d.v_is_sink):
+                return None
+            ds = [x for i, x in _defs_of(gcfg, name).items() if i in d.body and i != cur]
+            return ds[0] if len(ds) == 1 and isinstance(ds[0], ast.expr) else None
+        return resolve
+
+    def own_match(src):
+        return isinstance(src, ast.Name) and any(
+            gcfg.node(i).kind == 'stmt' and isinstance(gcfg.node(i).ast, ast.Assign) and any(isinstance(t, ast.Name) and t.id == src.id for t in gcfg.node(i).ast.targets)
+            and isinstance(gcfg.node(i).ast.value, ast.Call) and isinstance(gcfg.node(i).ast.value.func, ast.Attribute) and gcfg.node(i).ast.value.func.attr == 'match'
+            and isinstance(gcfg.node(i).ast.value.func.value, ast.Name) and gcfg.node(i).ast.value.func.value.id == d.v_matcher for i in d.body)
+
     for nid, v in pdefs.items():
         node = gcfg.node(nid)
         if isinstance(v, ast.Dict) and not v.keys:
@@ -1610,17 +1850,32 @@ def r5_suffix_kwargs(run):
         elif isinstance(v, ast.Name) and v.id != d.v_params and all(isinstance(x, (ast.Assign, ast.AnnAssign)) and isinstance(x.value, ast.Name)
                                                                     for x in _defs_of(gcfg, v.id).values()) and _defs_of(gcfg, v.id):
             run.ok('params are the route\'s parsed fields', g.loc(node.ast), node.ast)
-        elif isinstance(v, ast.Call) and isinstance(v.func, ast.Attribute) and v.func.attr == 'groupdict' and not v.args:
+        elif isinstance(v, ast.expr) and _mentions_groupdict(v, resolver(nid)):
             n_gd += 1
+            gd_nodes.append(nid)
             run.check(nid in d.body and bool(sink_edges) and nid not in flow.reachable(gcfg, [d.iter_node], avoid_edges=sink_edges),
                       'regex named groups become kwargs on the sink branch only', g, node.ast,
                       runtime_witness='a static route entry (whose matcher returns a bool) asked for .groupdict()')
-            src = v.func.value
-            ok = isinstance(src, ast.Name) and any(
-                gcfg.node(i).kind == 'stmt' and isinstance(gcfg.node(i).ast, ast.Assign) and any(isinstance(t, ast.Name) and t.id == src.id for t in gcfg.node(i).ast.targets)
-                and isinstance(gcfg.node(i).ast.value, ast.Call) and isinstance(gcfg.node(i).ast.value.func, ast.Attribute) and gcfg.node(i).ast.value.func.attr == 'match'
-                and isinstance(gcfg.node(i).ast.value.func.value, ast.Name) and gcfg.node(i).ast.value.func.value.id == d.v_matcher for i in d.body)
-            run.check(ok, 'the kwargs come from the match object of this entry\'s own pattern', g, node.ast)
+            # what the expression makes of the match's named groups, on a finite domain of groupdict() results
+            gev = _GroupdictEval(resolver(nid))
+            diff = None
+            try:
+                for sample in _GD_SAMPLES:
+                    got = gev.run(v, dict(sample))
+                    if not (isinstance(got, dict) and got == sample and all(got[k] is sample[k] or got[k] == sample[k] and type(got[k]) is type(sample[k]) for k in got)):
+                        diff = diff or (sample, got)
+            except _Unreadable as exc:
+                raise UnknownIdiom('%s: params defined by %s (computed from groupdict() by a construct the rule does not read: %s)' % (GETR, node.text(), exc))
+            except RecursionError:
+                raise UnknownIdiom('%s: params defined by %s' % (GETR, node.text()))
+            if not gev.src:
+                raise UnknownIdiom('%s: params defined by %s' % (GETR, node.text()))
+            run.check(all(own_match(sx) for sx in gev.src), 'the kwargs come from the match object of this entry\'s own pattern', g, node.ast)
+            run.check(diff is None, 'a sink\'s kwargs are exactly <match>.groupdict(): every named group of the prefix pattern arrives, a group that did not '
+                      'take part in the match as None (no filtering, defaulting or re-keying of the dict)', g, node.ast,
+                      witness=['groupdict() == %r  ->  params == %r' % diff] if diff else None,
+                      runtime_witness="add_sink(s, r'/(?:(?P<version>v\\d+)/)?orders/(?P<id>\\d+)') with def s(req, resp, version, id): GET /orders/12 raises "
+                                      'TypeError (500) because version is not passed; a **kwargs sink sees a different dict')
         else:
             raise UnknownIdiom('%s: params defined by %s' % (GETR, node.text()))
     if not n_gd:
@@ -1628,7 +1883,6 @@ def r5_suffix_kwargs(run):
     # a selected entry either is known not to be a sink or has had its named groups taken:
     # no path  loop header -> selection -> out of the loop  avoids both the groupdict
     # assignment and every edge on which is_sink is known to be false
-    gd_nodes = [nid for nid, v in pdefs.items() if isinstance(v, ast.Call)]
     inner = [n for n in _defs_of(gcfg, d.v_responder) if n in d.body]
     outside = {i for i in gcfg.reachable_ids if i not in d.body and i != d.iter_node}
     not_sink = _truth_edges(gcfg, lambda e: isinstance(e, ast.Name) and e.id == d.v_is_sink, False)
